@@ -109,16 +109,28 @@ def _xlsx_ragged() -> bytes:
     """worksheet without a <dimension> element whose rows have different lengths"""
     def c(ref, v):
         return f'<c r="{ref}" t="inlineStr"><is><t>{v}</t></is></c>'
+    typed = ('<row r="4"><c r="A4" s="1"><v>0.5</v></c><c r="B4" s="2"><v>45000</v></c><c r="C4" s="3"><v>45000.75</v></c>'
+             '<c r="D4"><v>3.25</v></c><c r="E4" t="b"><v>1</v></c><c r="F4" t="e"><v>#DIV/0!</v></c></row>')
     rows = ('<row r="1">' + c("A1", "h1") + c("B1", "h2") + '</row><row r="2">' + c("A2", "a") + c("B2", "b") + c("C2", "c") + c("D2", "d") + '</row>'
-            '<row r="3">' + c("A3", "only") + '</row>')
+            '<row r="3">' + c("A3", "only") + '</row>' + typed)
     sheet = f'<?xml version="1.0" encoding="UTF-8"?><worksheet {SS}><sheetData>{rows}</sheetData></worksheet>'
     wb = (f'<?xml version="1.0" encoding="UTF-8"?><workbook {SS} xmlns:r="http://schemas.openxmlformats.org/officeDocument/2006/relationships">'
           '<sheets><sheet name="Ragged" sheetId="1" r:id="rId1"/></sheets></workbook>')
     wrels = ('<?xml version="1.0" encoding="UTF-8"?><Relationships xmlns="http://schemas.openxmlformats.org/package/2006/relationships">'
              '<Relationship Id="rId1" Type="http://schemas.openxmlformats.org/officeDocument/2006/relationships/worksheet" Target="worksheets/sheet1.xml"/></Relationships>')
     rels = RELS.replace("word/document.xml", "xl/workbook.xml")
-    return _zip([("[Content_Types].xml", XLSX_CT.encode()), ("_rels/.rels", rels.encode()), ("xl/workbook.xml", wb.encode()),
-                 ("xl/_rels/workbook.xml.rels", wrels.encode()), ("xl/worksheets/sheet1.xml", sheet.encode()), ("docProps/core.xml", CORE.encode())])
+    styles = (f'<?xml version="1.0" encoding="UTF-8"?><styleSheet {SS}><fonts count="1"><font><sz val="11"/><name val="Calibri"/></font></fonts>'
+              '<fills count="1"><fill><patternFill patternType="none"/></fill></fills><borders count="1"><border/></borders>'
+              '<cellStyleXfs count="1"><xf numFmtId="0" fontId="0" fillId="0" borderId="0"/></cellStyleXfs>'
+              '<cellXfs count="4"><xf numFmtId="0" fontId="0" fillId="0" borderId="0" xfId="0"/>'
+              '<xf numFmtId="21" fontId="0" fillId="0" borderId="0" xfId="0" applyNumberFormat="1"/>'
+              '<xf numFmtId="14" fontId="0" fillId="0" borderId="0" xfId="0" applyNumberFormat="1"/>'
+              '<xf numFmtId="22" fontId="0" fillId="0" borderId="0" xfId="0" applyNumberFormat="1"/></cellXfs></styleSheet>')
+    wrels = wrels.replace("</Relationships>", '<Relationship Id="rId2" Type="http://schemas.openxmlformats.org/officeDocument/2006/relationships/styles" Target="styles.xml"/></Relationships>')
+    ct = XLSX_CT.replace("</Types>", '<Override PartName="/xl/styles.xml" ContentType="application/vnd.openxmlformats-officedocument.spreadsheetml.styles+xml"/></Types>')
+    return _zip([("[Content_Types].xml", ct.encode()), ("_rels/.rels", rels.encode()), ("xl/workbook.xml", wb.encode()),
+                 ("xl/_rels/workbook.xml.rels", wrels.encode()), ("xl/worksheets/sheet1.xml", sheet.encode()), ("xl/styles.xml", styles.encode()),
+                 ("docProps/core.xml", CORE.encode())])
 
 
 def _odf(mt: str, body: str) -> bytes:
@@ -195,7 +207,7 @@ def _mbox() -> bytes:
 RTF1 = (r"{\rtf1\ansi\deff0{\fonttbl{\f0 Times;}}{\info{\title Sim Title}{\author Sim Author}{\subject Sim Subject}{\keywords k1, k2}}"
         r"\pard Hello \b bold\b0  world\par Second \'80 euro \u-10179?\u-8704? emoji\par{\footnote This is a considerably longer footnote text {\i with a nested group that is itself fairly long and wordy enough to matter} and more plain words after it}\page Page two\par"
         r"\trowd\cellx1000\cellx2000 a\cell b\cell\row\pard end}").encode()
-RTF2 = (r"{\rtf1\ansi\ansicpg1252 {\*\generator x;}{\colortbl;\red0\green0\blue0;}\pard\f0 caf\'e9 \u233? na\'efve {\i nested {\b deep}} text\par}").encode()
+RTF2 = (r"{\rtf1\ansi\ansicpg1252 {\*\generator x;}{\colortbl;\red0\green0\blue0;}\pard\f0 caf\'e9 \u233? na\'efve {\i nested {\b deep}} text\par lone high \u-10179? and lone low \u-8704? and positive \u55357? units\par}").encode()
 HTML1 = (b"<!DOCTYPE html><html><head><title>Sim Title</title><meta name=\"author\" content=\"Sim Author\"><meta name=\"description\" content=\"Sim Description\">"
          b"<meta name=\"keywords\" content=\"k1, k2\"><style>p{color:red}</style><script>var x=1;</script></head><body><h1>Head</h1><p>para &amp; text</p>"
          b"<table><tr><th>h</th><th>i</th></tr><tr><td>1</td><td>2</td><td>3</td><td>4</td></tr><tr><td>only</td></tr></table><ul><li>one</li><li>two</li></ul><img src=\"a.png\" alt=\"pic\"></body></html>")
@@ -223,6 +235,9 @@ def generated() -> dict[str, bytes]:
     g["gen/a.htm"] = HTML1
     g["gen/b.html"] = HTML1.replace(b"Sim Title", b"Other Title").replace(b"Head", b"Second heading").replace(b"Sim Author", b"Other Author")
     g["gen/c.html"] = b"<html><head><title>Third</title></head><body><p>third body</p></body></html>"
+    g["gen/deeper.html"] = b"<html><body>" + b"<div>" * 30000 + b"very deep" + b"</div>" * 30000 + b"</body></html>"
+    g["gen/hebrew.html"] = (b'<html><head><meta charset="iso-8859-8-i"><title>t</title></head><body><p>' + "שלום עולם".encode("iso-8859-8") + b"</p></body></html>")
+    g["gen/arabic.html"] = (b'<html><head><meta charset="windows-874"><title>t</title></head><body><p>\xa1\xa2\xa3 thai</p></body></html>')
     g["gen/a.mhtml"] = MHTML1
     g["gen/a.mht"] = MHTML1
     g["gen/a.rtf"] = RTF1
